@@ -1,2 +1,132 @@
-(* placeholder while the proofs are developed *)
-Require Import XV.PatDefs.
+(* Properties_C09.v — C09: a node matches a pattern exactly when the pattern, as an expression, selects it.
+
+   Model (PatDefs.v): XPath::stepPattern / doStepPredicate / handleFoundIndex / NodeTester and the op-code
+   choice of XPathProcessorImpl::LocationPathPattern / AbbreviatedNodeTestStep, over a node table; the
+   specification is the pattern evaluated left to right as an XPath expression (child / attribute steps,
+   descendant-or-self::node() for '//', the root for a leading '/', an abstract node-set for id()/key()),
+   with predicates filtering by position in the candidate list.  Predicates are arbitrary functions
+   node -> position -> size -> boolean-or-number carrying the compiler's positional flag; the only
+   hypothesis on them is that an unflagged predicate ignores position and size (proved for the concrete
+   predicate language of the generator in flag_sound). *)
+From Coq Require Import List Bool Arith.
+Require Import XV.PatDefs XV.PatModel XV.PatModel2 XV.PatModel3.
+Import ListNotations.
+
+(** The matcher's treatment of one step — node test, then the predicate loop in which flagged or
+    number-valued predicates are decided by re-running the forward step from the parent and looking the
+    node up (handleFoundIndex) — holds exactly when the node is selected by that step from its parent. *)
+Theorem found_index_correct : forall D st c,
+  wf_doc D = true -> Forall wf_pred (s_preds st) ->
+  (step_ok D (s_attr st) (s_test st) (s_preds st) c = true <->
+   exists p, parent D c = Some p /\ In c (spec_step D st p)).
+Proof. exact step_ok_spec. Qed.
+Print Assumptions found_index_correct.
+
+(** The predicate loop alone: with fi the answer of the re-run, it returns membership in the filtered
+    candidate list, whatever mix of positional and non-positional predicates, in any order. *)
+Theorem do_step_predicate_correct : forall ps cands c,
+  Forall wf_pred ps -> In c cands ->
+  do_preds (mem c (apply_preds ps cands)) ps c true = mem c (apply_preds ps cands).
+Proof. exact do_preds_correct. Qed.
+Print Assumptions do_step_predicate_correct.
+
+(** The expression semantics, read backwards from the selected node (used by everything below). *)
+Theorem select_chain : forall D steps, wf_doc D = true -> steps <> [] -> forall cs n,
+  In n (sel_steps D cs steps) <->
+  exists c, reach D steps n c /\
+            exists p, parent D c = Some p /\
+                      In p (expand D (match steps with (sp, _) :: _ => sp | [] => SChild end) cs).
+Proof. exact sel_steps_reach. Qed.
+Print Assumptions select_chain.
+
+(** '/'-only step chains: the matcher returns exactly the node matched by the first step. *)
+Theorem child_chain_exact : forall D steps, wf_doc D = true -> wf_steps steps -> steps <> [] ->
+  all_child (tl steps) = true -> forall n g,
+  step_pattern D (compile_steps steps) n = (Some g, true) <-> reach D steps n g.
+Proof. exact chain_child. Qed.
+Print Assumptions child_chain_exact.
+
+(** Nearest suffices: when nothing but '//' stands to the left of a '//', whatever chain of ancestors
+    the expression semantics uses, the matcher (nearest satisfying ancestor, no backtracking) succeeds,
+    with a context at or below the chain's; and whatever the matcher finds is a chain. *)
+Theorem nearest_suffices : forall D steps, wf_doc D = true -> wf_steps steps -> steps <> [] ->
+  desc_then_child (tl steps) = true -> forall n,
+  (forall g, step_pattern D (compile_steps steps) n = (Some g, true) -> reach D steps n g) /\
+  (forall c, reach D steps n c ->
+             exists g, step_pattern D (compile_steps steps) n = (Some g, true) /\ In c (aos D g)).
+Proof. exact chain_any. Qed.
+Print Assumptions nearest_suffices.
+
+(** One location path pattern, every head (relative, '/', '//', id()/key()). *)
+Theorem match_path_iff_select : forall D p n,
+  wf_doc D = true -> wf_path p -> no_left_of_any p = true -> n < length D ->
+  (match_path D p n = true <-> exists a, In a (aos D n) /\ In n (sel_path D p a)).
+Proof. exact match_path_iff. Qed.
+Print Assumptions match_path_iff_select.
+
+(** C09 under the exact syntactic guard: unions of paths in which no '/' stands to the left of a '//'. *)
+Theorem match_iff_select_partial : forall D P n,
+  wf_doc D = true -> wf_pattern P -> guard P = true -> n < length D ->
+  (matches D P n = true <->
+   exists p a, In p P /\ In a (aos D n) /\ In n (sel_path D p a)).
+Proof. exact matches_iff_selects. Qed.
+Print Assumptions match_iff_select_partial.
+
+(** The compiler's positional flag is sound for the generator's predicate language, so for generated
+    patterns the hypothesis on predicates is discharged. *)
+Theorem flag_sound_concrete : forall D p, cflag p = false ->
+  forall n i s i' s', ceval D p n i s = ceval D p n i' s'.
+Proof. exact flag_sound. Qed.
+Print Assumptions flag_sound_concrete.
+
+Theorem match_iff_select_concrete : forall D P n,
+  wf_doc D = true -> c_shape D P = true -> c_guard D P = true -> n < length D ->
+  (c_match D P n = true <-> selects D (map (path_of D) P) n).
+Proof. exact c_match_iff_select. Qed.
+Print Assumptions match_iff_select_concrete.
+
+(** Outside the guard the full statement is false for the code as it is. *)
+Theorem match_iff_select_refuted_pos : exists P D n,     (* K14: /a//b on <x><a><b/></a></x> *)
+  wf_doc D = true /\ wf_pattern P /\ n < length D /\
+  matches D P n = true /\ ~ selects D P n.
+Proof.
+  exists k14_pat, k14_doc, 3. destruct k14_facts as [W [M [S _]]].
+  split; [exact W|]. split.
+  - intros p [E|[]]. subst p. split; [|reflexivity]. repeat constructor.
+  - split; [vm_compute; auto|]. split; [exact M|].
+    intro H. apply selectsb_spec in H. rewrite S in H. discriminate.
+Qed.
+Print Assumptions match_iff_select_refuted_pos.
+
+Theorem match_iff_select_refuted_neg : exists P D n,     (* K15: c/a//b on <c><a><y><a><b/></a></y></a></c> *)
+  wf_doc D = true /\ wf_pattern P /\ n < length D /\
+  matches D P n = false /\ selects D P n.
+Proof.
+  exists k15_pat, k15_doc, 5. destruct k15_facts as [W [M [S _]]].
+  split; [exact W|]. split.
+  - intros p [E|[]]. subst p. split; [|reflexivity]. repeat constructor.
+  - split; [vm_compute; auto|]. split; [exact M|]. apply selectsb_spec. exact S.
+Qed.
+Print Assumptions match_iff_select_refuted_neg.
+
+(** Both witnesses are outside the guard (so the partial theorem is not contradicted), *)
+Example refutations_outside_guard : guard k14_pat = false /\ guard k15_pat = false.
+Proof. split; [apply k14_facts|apply k15_facts]. Qed.
+
+(** and the hypotheses of the partial theorem are satisfiable with non-trivial outcomes:
+    a[@x]//b[position() = last()][1] | //c/@y   on   <a x=""><b/><d><b/><b/></d><c y=""/></a>
+    (names a=0 b=1 c=2 d=3 x=4 y=5): matches the first b (node 3), the last b under d (node 6) and @y (8). *)
+Definition ex_doc : doc :=
+  [mkN KRoot None; el 0 0; mkN (KAttr 4) (Some 1); el 1 1; el 3 1; el 1 4; el 1 4; el 2 1; mkN (KAttr 5) (Some 7)].
+Definition ex_pat : list cpath :=
+  [mkCP CHRel [(SChild, mkCS false (TName 0) [CHasAttr 4]);
+               (SDesc, mkCS false (TName 1) [CPosLast; CNum 1])];
+   mkCP CHAbs [(SDesc, mkCS false (TName 2) []); (SChild, mkCS true (TName 5) [])]].
+
+Example partial_hypotheses_satisfiable :
+  wf_doc ex_doc = true /\ c_shape ex_doc ex_pat = true /\ c_guard ex_doc ex_pat = true /\
+  map (c_match ex_doc ex_pat) (seq 0 (length ex_doc)) =
+    [false; false; false; true; false; false; true; false; true] /\
+  map (c_select ex_doc ex_pat) (seq 0 (length ex_doc)) =
+    [false; false; false; true; false; false; true; false; true].
+Proof. vm_compute. repeat split. Qed.
